@@ -383,7 +383,7 @@ def reexports(case: Any) -> List[Dict[str, Any]]:
     return out
 
 
-def binding_of(case: Any, fn: List[str], mi: int, name: str) -> Optional[Tuple[str, Any]]:
+def binding_of(case: Any, fn: List[str], mi: int, name: str, depth: int = 0) -> Optional[Tuple[str, Any]]:
     """What the LAST module-level binding of `name` in module mi denotes in Python:
     ('def', module index, name) | ('mod', module index) | ('ext', dotted) ; None when unbound.
     Also returns how it was bound: 'def' | 'from:<module index>' | 'star:<module index>' | 'import' | 'alias'."""
@@ -404,7 +404,7 @@ def binding_of(case: Any, fn: List[str], mi: int, name: str) -> Optional[Tuple[s
             for o, a in st[3]:
                 if (a if a else o) == name:
                     if t in idx:
-                        d = denote_attr(case, fn, idx[t], o, depth=0)
+                        d = denote_attr(case, fn, idx[t], o, depth + 1)
                         res = ('from:%d' % idx[t], d if d else ('ext', t + '.' + o))
                     else:
                         res = ('from:-1', ('ext', '%s.%s' % (t, o)))
@@ -415,7 +415,7 @@ def binding_of(case: Any, fn: List[str], mi: int, name: str) -> Optional[Tuple[s
                 alld = module_all(dm)
                 pub = alld if alld is not None else [x for x in bound_names(dm) if not x.startswith('_')]
                 if name in pub:
-                    d = denote_attr(case, fn, idx[t], name, depth=0)
+                    d = denote_attr(case, fn, idx[t], name, depth + 1)
                     res = ('star:%d' % idx[t], d if d else ('ext', t + '.' + name))
         elif k == 'alias' and st[1] == name:
             res = ('alias', ('ext', st[2]))
@@ -426,7 +426,7 @@ def denote_attr(case: Any, fn: List[str], mi: int, name: str, depth: int) -> Opt
     """The entity that attribute `name` of module mi is in Python (sub-modules count as attributes)."""
     if depth > 8:
         return None
-    b = binding_of(case, fn, mi, name)
+    b = binding_of(case, fn, mi, name, depth)
     if b is not None:
         return b[1]
     sub = fn[mi] + '.' + name
